@@ -896,3 +896,9 @@ must_fail(c, "all_edges_unconstrained", lambda self, analysis_keys, block: VBool
 must_fail(c, "jump_cell_admits_fallthrough", lambda self, analysis_keys, block, v: Implies(VBool(branch_known(block)), lambda: VBool(
     _all_j(analysis_keys, lambda j, k: z3.Implies(z3.And(keydef(v, VStr(k)).term, current().ex.list_len(block._next, current().st).term >= 2),
                                                    admits(VStr(k), VAbs(A, p_cell(self, k, current().ex.list_get(block._next, 1, current().st).term, block)), v).term)))))
+
+
+# quantified invariants: generous solver budgets, so that the verdict on unchanged code does not flip when the machine is busy
+for _t in ("_merge_information_forward", "_merge_information_backward", "_block_level_constraints", "_path_level_constraints",
+           "_update_gtxn_constraints", "_calculate_reachin", "_calculate_livein"):
+    REGISTRY[G + _t].timeout_factor = 4.0
